@@ -2,6 +2,11 @@
 from . import rpugen as G
 
 ALL_LEVELS = [1, 2, 3, 4, 5, 6, 8, 9, 10, 11, 254, 255]
+# legal maxima narrower than the coded width (from the validate() clauses)
+SEMANTIC_BOUNDS = {(11, "whitepoint"): 15, (11, "content_type"): 15, (6, "max_display_mastering_luminance"): 10000, (6, "min_display_mastering_luminance"): 10000,
+                   (6, "max_content_light_level"): 10000, (6, "max_frame_average_light_level"): 10000, (5, "active_area_left_offset"): 8191,
+                   (5, "active_area_right_offset"): 8191, (5, "active_area_top_offset"): 8191, (5, "active_area_bottom_offset"): 8191,
+                   (10, "target_max_pq"): 4095, (10, "target_min_pq"): 4095, (9, "source_primary_index"): 255, (254, "dm_mode"): 255}
 
 
 def block_spec(r, level, valid=True, full_range=False):
@@ -16,10 +21,18 @@ def block_spec(r, level, valid=True, full_range=False):
             kv.append("%s=%d" % (name, 1 if val else 0))
             continue
         if full_range and r.random() < 0.3:
-            # over the whole integer type of the field, not only its legal range
+            # over the whole integer type of the field, not only its legal range; half of the time
+            # right at the edge of the coded width or of the field's semantic bound (k and k + 1)
             width = dict((f[0], f[1]) for f in G.BLOCK_FIELDS[level]).get(name, 8)
             tb = 8 if abs(width) <= 8 else 16
-            val = r.choice([(1 << tb) - 1, 1 << (tb - 1), r.randrange(1 << tb)]) if width > 0 else r.choice([-32768, 32767, -2, -4097, 4096, r.randrange(-32768, 32768)])
+            if width > 0 and r.random() < 0.5:
+                edges = [(1 << width) - 1, 1 << width] if width < tb else [(1 << tb) - 1]
+                k = SEMANTIC_BOUNDS.get((level, name))
+                if k is not None:
+                    edges += [k, k + 1]
+                val = min(r.choice(edges), (1 << tb) - 1)
+            else:
+                val = r.choice([(1 << tb) - 1, 1 << (tb - 1), r.randrange(1 << tb)]) if width > 0 else r.choice([-32768, 32767, -2, -4097, 4096, r.randrange(-32768, 32768)])
         kv.append("%s=%d" % (name, val))
     return "%d:%d:%s" % (level, length, ",".join(kv))
 
